@@ -315,7 +315,8 @@ where
         let h = decoder.pull().map_err(Into::into)?;
         match h {
           Header::Break => break,
-          Header::Bytes(seg_len) => {
+          // RFC 8949 3.2.3: chunks are definite-length strings of the same major type
+          Header::Bytes(seg_len @ Some(_)) => {
             let seg = read_bytes(decoder, seg_len)?;
             result.extend_from_slice(&seg);
           }
@@ -346,7 +347,8 @@ where
         let h = decoder.pull().map_err(Into::into)?;
         match h {
           Header::Break => break,
-          Header::Text(seg_len) => {
+          // RFC 8949 3.2.3: chunks are definite-length strings of the same major type
+          Header::Text(seg_len @ Some(_)) => {
             let seg = read_text(decoder, seg_len)?;
             result.push_str(&seg);
           }
